@@ -316,7 +316,7 @@ func runC01(c *Ctx) {
 				c.Check(errGuardOn(s.Block(), B.Call, true), "enqueue: queueSize updated only after successful Batch", p.Pos(s.Pos()), "store dominated by err==nil side", "queue size is updated on a path where the Batch did not succeed")
 			}
 			for _, r := range returnsOf(fn) {
-				if len(r.Results) == 1 && isNilConst(r.Results[0]) {
+				if len(r.Results) == 1 && isNilConst(resultsOf(r)[0]) {
 					c.Check(errGuardOn(r.Block(), B.Call, true), "enqueue: success return only after successful Batch", p.Pos(r.Pos()), "return nil dominated by err==nil side", "enqueue reports success on a path where the item was not durably stored")
 				}
 			}
